@@ -317,6 +317,26 @@ pub fn pool_with_session(threads: usize, sink: Option<Arc<dyn SearchSink>>) -> r
     pool_with_session_tracking(threads, sink, false)
 }
 
+/// Kernel thread id of the calling thread (Linux), for stall diagnosis through /proc.
+pub fn current_tid() -> Option<u32> {
+    std::fs::read_link("/proc/thread-self").ok().and_then(|p| p.file_name().and_then(|n| n.to_str().and_then(|s| s.parse().ok())))
+}
+
+/// Scheduler states ('R' running, 'S' sleeping, 'D' disk wait, ...) of the given threads of this process.
+pub fn thread_states(tids: &[u32]) -> Vec<char> {
+    tids.iter().map(|t| std::fs::read_to_string(format!("/proc/self/task/{}/stat", t)).ok().and_then(|s| s.rsplit(')').next().and_then(|r| r.trim().chars().next())).unwrap_or('?')).collect()
+}
+
+/// A pool whose workers route search events to `sink` and publish their thread ids in `tids`.
+pub fn pool_with_session_tids(threads: usize, sink: Option<Arc<dyn SearchSink>>, tids: Arc<Mutex<Vec<u32>>>) -> rayon::ThreadPool {
+    rayon::ThreadPoolBuilder::new()
+        .num_threads(threads)
+        .start_handler(move |_| { set_session(sink.clone()); if let Some(t) = current_tid() { tids.lock().unwrap().push(t); } })
+        .exit_handler(|_| { flush_thread(); })
+        .build()
+        .expect("rayon pool")
+}
+
 /// Like `pool_with_session`; with `track` the workers also keep the position of their current board.
 pub fn pool_with_session_tracking(threads: usize, sink: Option<Arc<dyn SearchSink>>, track: bool) -> rayon::ThreadPool {
     rayon::ThreadPoolBuilder::new()
